@@ -291,10 +291,10 @@ static void dump_state(tjinstance *t, char *out, size_t cap)
     int mask = (c->main != NULL) | ((c->prep != NULL) << 1) | ((c->cconvert != NULL) << 2) |
                ((c->downsample != NULL) << 3) | ((c->fdct != NULL) << 4) | ((c->coef != NULL) << 5) |
                ((c->entropy != NULL) << 6) | ((c->marker != NULL) << 7);
-    n += snprintf(out + n, cap - n, "c:%d,%d,%d,%d,%d,%u,%d,%d,%d,%d,%d ", c->global_state, c->scan_info != NULL,
+    n += snprintf(out + n, cap - n, "c:%d,%d,%d,%d,%d,%u,%d,%d,%d,%d,%d,%d ", c->global_state, c->scan_info != NULL,
                   c->master ? c->master->lossless : -1, c->arith_code, c->optimize_coding, c->restart_interval,
                   c->restart_in_rows, c->raw_data_in, mask, dest ? dest->newbuffer != NULL : -1,
-                  dest ? (dest->newbuffer == NULL || dest->newbuffer == dest->buffer) : -1);
+                  dest ? (dest->newbuffer == NULL || dest->newbuffer == dest->buffer) : -1, c->data_precision);
   } else
     n += snprintf(out + n, cap - n, "c:- ");
   if (t->init & DECOMPRESS) {
@@ -752,7 +752,7 @@ static void copy_params(tjinstance *u, tjinstance *f)
 static void run_history(char *line)
 {
   char *ops[64], *tk[16], *sv = NULL, *p;
-  int nops = 0, i, nt, type, mismatch = 0;
+  int nops = 0, i, nt, type, mismatch = 0, pstart;
   struct runctx u, f;
   struct opres r, rf;
   char st[1024];
@@ -763,6 +763,16 @@ static void run_history(char *line)
   /* ops[0] = "I c|d|t" */
   type = strchr(ops[0], 'c') ? TJINIT_COMPRESS : strchr(ops[0], 'd') ? TJINIT_DECOMPRESS : TJINIT_TRANSFORM;
   memset(&u, 0, sizeof(u)); memset(&f, 0, sizeof(f));
+  /* tj3GetICCProfile / tj3TransformBufSize report what the preceding tj3DecompressHeader call
+     left: then the probe is that header call followed by the getter, on both instances */
+  pstart = nops - 1;
+  {
+    const char *last = ops[nops - 1] + strspn(ops[nops - 1], " ");
+    if (nops >= 3 && (!strncmp(last, "gi", 2) || !strncmp(last, "tb", 2))) {
+      const char *prev = ops[nops - 2] + strspn(ops[nops - 2], " ");
+      if (!strncmp(prev, "h ", 2) || !strncmp(prev, "lh ", 3)) pstart = nops - 2;
+    }
+  }
   u.h = new_instance(type); u.type = type;
   tu = (tjinstance *)u.h;
   dump_state(tu, st, sizeof(st));
@@ -775,7 +785,7 @@ static void run_history(char *line)
     strncpy(copy, ops[i], sizeof(copy) - 1); copy[sizeof(copy) - 1] = 0;
     for (p = strtok_r(ops[i], " \t\r\n", &sv2); p && nt < 16; p = strtok_r(NULL, " \t\r\n", &sv2)) tk[nt++] = p;
     if (nt == 0) { printf(" | rc=-99 st=? h=0 n=0 w=0 S=-"); continue; }
-    if (i == nops - 1) {
+    if (i == pstart) {
       /* probe: fresh instance first gets the settings of the used one as they are NOW */
       f.h = new_instance(type); f.type = type;
       tf = (tjinstance *)f.h;
@@ -785,6 +795,12 @@ static void run_history(char *line)
     dump_state(tu, st, sizeof(st));
     printf(" | rc=%d st=%s h=%016llx n=%zu w=%d S=%s", r.rc, r.stage, r.hash, r.outn, r.warn, st);
     fflush(stdout);
+    if (i >= pstart && i < nops - 1) {
+      /* first call of a two-call probe, on the fresh instance */
+      nt = 0; sv2 = NULL;
+      for (p = strtok_r(copy, " \t\r\n", &sv2); p && nt < 16; p = strtok_r(NULL, " \t\r\n", &sv2)) tk[nt++] = p;
+      run_op(&f, tk, nt, &rf);
+    }
     if (i == nops - 1) {
       /* re-tokenise the probe for the fresh instance */
       nt = 0; sv2 = NULL;
